@@ -306,7 +306,7 @@ def _check_one(p64: str, protected: dict, unprot: dict | None, payload_for_b64: 
     crit = merged.get("crit")
     if crit is not None:
         if "crit" not in protected:
-            return None, "policy", "crit outside protected header", merged
+            return False, "policy", "crit is not integrity protected (RFC 7515 4.1.11)", merged
         if not isinstance(crit, list) or not all(isinstance(c, str) for c in crit):
             return False, "policy", "crit malformed", merged
         for c in crit:
